@@ -59,8 +59,18 @@ def r11_1(run, model):
                f"call {post['(']}; prefix operand parsed with {max(pre.values())}; right power of `.` {inf['.'][1]}",
                witness="-tick() is read as `-tick` (the empty argument list is lost in the re-association the lowering attempts): no diagnostic, "
                        "tick is never called; !q.is_empty() is rejected; -origin(3).x becomes (-origin(3)).x")
+    # an operator the tiers above do not know (a later addition to the language) is held to what every binary operator obeys:
+    # it associates to the left and sits on one precedence level - that of a documented tier, or a level of its own strictly between two
     extra = sorted(set(inf) - {s for t in TIERS for s in t} - {"."})
-    run.ob("R11.1", "infix table|no undocumented operator", not extra, site(TB.EXPR, None), f"undocumented infix operators: {extra}")
+    tiers_have = [[s for s in t if s in inf] for t in TIERS]
+    spans = [(min(inf[s][0] for s in h), max(inf[s][1] for s in h)) for h in tiers_have if h]
+    for e in extra:
+        l, r = inf[e]
+        joins = any(h and inf[h[0]] == (l, r) for h in tiers_have)
+        apart = all(r < lo or l > hi for lo, hi in spans) and l < inf.get(".", (99, 99))[0]
+        run.ob("R11.1", f"infix {e}|left-associative on one precedence level", l < r and (joins or apart), site(TB.EXPR, None),
+               f"{e}: ({l}, {r}); " + ("the powers of a documented tier" if joins else "a level of its own" if apart else "overlaps a documented tier"),
+               witness=f"a {e} b {e} c groups to the right, or {e} binds between the two powers of another level")
 
 
 def r11_2(run, model):
@@ -318,10 +328,17 @@ def r11_8(run, model):
     for r in S.walk(f.body):
         if r["k"] == "If" and any(True for _ in S.find(r["then"], "Return")):
             ct = S.norm_ws(run.facts.text(GOPP, r["cond"]["sp"]))
+            # the test may be delegated to a predicate of the same file (called, or handed to any/all)
+            for g in model.fns(GOPP):
+                if g.body is not None and g.name != f.name and g.name in S.idents(r["cond"]):
+                    ct += S.norm_ws(run.facts.text(GOPP, g.body["sp"]))
             tested = set(re.findall(r"'(\\.|[^'\\])'", ct))
+            if re.search(r"is_(ascii_)?control\(\)", ct):
+                tested |= {e for e in esc if e in ("\\n", "\\r", "\\t", "\\0", "\n", "\r", "\t")}
             shortcuts.append((r, tested, ct))
+    dec = lambda x: {"n": "\n", "r": "\r", "t": "\t", "0": "\0", "\\": "\\", '"': '"', "'": "'"}.get(x[1], x) if len(x) == 2 and x[0] == "\\" else x
     for r, tested, ct in shortcuts:
-        missing = sorted(esc - tested)
+        missing = sorted({dec(e) for e in esc} - {dec(e) for e in tested})
         run.ob("R11.8", "escape_go_string|shortcut tests every escaped character", not missing, site(GOPP, r["sp"]),
                f"early return under `{ct[:60]}` tests {sorted(tested)}; the loop escapes {sorted(esc)}; not tested: {missing or 'none'}",
                witness="\"col1\\tcol2\" (backslash, t) is emitted with a single backslash: Go prints a tab")
@@ -387,25 +404,25 @@ def r11_23(run, model):
                        "precedence - a numeric token whose regex can start with a sign swallows the operator of `a-1` (the longest match "
                        "lexes `a` `-1`, two operands with nothing between them) and binds tighter than any operator in `-1.max(2)`")
     import re as _re
+    samples = ["1", "12", "1.5", "0x1F", "0b101", "1e5", "1_000"]
+    sufs = ["", "i8", "i16", "i32", "i64", "u8", "u16", "u32", "u64", "f32", "f64"]
     n = 0
     for name, k, t in TB.token_kinds(model):
-        if k != "regex" or not t or "[0-9]" not in t:
+        if k != "regex" or not t:
+            continue
+        try:
+            rx = _re.compile(t)
+        except _re.error:
+            continue
+        # a numeric token: its regex matches some plain number
+        if not any(rx.fullmatch(s_ + u) for s_ in samples for u in sufs):
             continue
         n += 1
-        # the first characters a match can start with: the leading atoms up to the first that is not optional
-        rest = t
-        firsts = []
-        while rest:
-            mm = _re.match(r"(\[[^\]]*\]|\\.|\([^)]*\)|.)([?*+]|\{[0-9,]*\})?", rest)
-            atom, q = mm.group(1), mm.group(2) or ""
-            firsts.append(atom)
-            rest = rest[mm.end():]
-            if not (q in ("?", "*") or q.startswith("{0")):
-                break
-        ok = all(a in ("[0-9]", "\\d") for a in firsts)
-        run.ob("R11.23", f"TokenKind::{name}|starts with a digit", ok, site(TB.LEXER, None), f"/{t}/ can start with {firsts}",
+        signed = sorted({c for c in "+-" for s_ in samples for u in sufs if rx.fullmatch(c + s_ + u)})
+        run.ob("R11.23", f"TokenKind::{name}|starts with a digit", not signed, site(TB.LEXER, None),
+               f"/{t}/ " + (f"also matches a number with a leading {signed}" if signed else "matches no signed number"),
                witness="let a = 5; a-1 lexes as `a` `-1`: a parse error, or with a newline between them two statements")
-    run.floor("numeric token regexes", n, 12)
+    run.floor("numeric token regexes", n, 6)
 
 
 def r11_24(run, model):
